@@ -36,6 +36,13 @@ def main():
     s = sub.add_parser("minimise")
     s.add_argument("path")
     s.add_argument("--tries", type=int, default=120)
+    s = sub.add_parser("one")
+    s.add_argument("check")
+    s.add_argument("--index", type=int, required=True)
+    s.add_argument("--seed", type=int, default=1)
+    s.add_argument("--tier", default="quick")
+    s.add_argument("--hashseed", type=int, default=0)
+    s.add_argument("--dump", default=None)
     s = sub.add_parser("selftest")
     s.add_argument("what", choices=["determinism", "sensitivity", "models"])
     s.add_argument("--checks", default="")
@@ -55,6 +62,10 @@ def main():
         B.ensure_env(0)
         from sim import runner
         return runner.check_main(args)
+    if args.cmd == "one":
+        B.ensure_env(args.hashseed)
+        from sim import runner
+        return runner.one_main(args)
     if args.cmd == "replay":
         from sim import runner
         return runner.replay_main(args)
